@@ -315,7 +315,7 @@ func mappingCfgs() []ref.BalCfg {
 	}
 	accs := [][]string{nil, {"Assets"}, {"Bank"}, {"Food$"}, {"Assets", "Income"}}
 	coms := [][]string{nil, {"CHF"}}
-	remaps := [][]string{nil, {"Liabilities"}, {"Bank", "Salary"}}
+	remaps := [][]string{nil, {"Liabilities"}, {"Bank", "Salary"}, {"Opening|Checking"}} // the last one also matches an equity account (which has no counterpart type)
 	bases := []ref.BalCfg{
 		{},
 		{Interval: ref.Monthly, NoClose: true},
